@@ -39,6 +39,11 @@ pub struct PairScn {
     /// also through Writer::from_path / Reader::from_path / shapefile::read
     #[serde(default)]
     pub path: bool,
+    /// the ShapeWriter handed to Writer::new has already written shapes[0] on its own (C10 only:
+    /// the history, made of good pairs and rejected shapes, is compared with itself without the
+    /// rejected calls)
+    #[serde(default)]
+    pub pre: bool,
 }
 
 fn table() -> dbase::TableWriterBuilder {
@@ -134,7 +139,7 @@ pub fn execute(scn: &PairScn, ctx: &mut Ctx) {
     // a wrong-shape call before the first accepted shape would set the file's type
     let first_good = scn.calls.iter().position(|c| !matches!(c, PCall::WrongShape));
     if let Some(w) = scn.calls.iter().position(|c| matches!(c, PCall::WrongShape)) {
-        if first_good.map(|g| w < g).unwrap_or(true) {
+        if !scn.pre && first_good.map(|g| w < g).unwrap_or(true) {
             ctx.fail("HARNESS", "invalid-scenario", "pair", "wrong-shape call before the first shape".to_string());
             return;
         }
@@ -153,6 +158,10 @@ pub fn execute(scn: &PairScn, ctx: &mut Ctx) {
             return;
         }
     };
+    if scn.pre {
+        execute_pre(scn, &shapes, &other, ty, ctx);
+        return;
+    }
     let geoms: Vec<Geom> = shapes.iter().map(capture).collect();
     let hist = hist_name(&scn.calls);
     let bad = first_bad_row(&scn.calls);
@@ -325,6 +334,45 @@ pub fn execute(scn: &PairScn, ctx: &mut Ctx) {
         }
         ctx.stats.absorb_world(&w3.borrow());
     }
+    // the complete reader without index (the .shx is optional): two pair iterations on one reader,
+    // the first stopped after half of the pairs; the second yields the remaining pairs (or all of
+    // them again, C15), each shape still next to its own row
+    if bad == "no-failing-row" && n >= 2 {
+        let w4 = World::with_data(Plan::default(), shp.clone(), shx.clone(), dbf.clone());
+        let k = n / 2;
+        let r = guarded(|| -> Result<(Vec<(Geom, Option<i64>)>, Vec<(Geom, Option<i64>)>), shapefile::Error> {
+            let sr = ShapeReader::new(Stack::reader(&w4, SHP, StackCfg::Direct))?;
+            let dr = dbase::Reader::new(Stack::reader(&w4, DBF, StackCfg::Direct))?;
+            let mut rd = Reader::new(sr, dr);
+            let idx_of = |rec: &dbase::Record| match rec.get("idx") {
+                Some(dbase::FieldValue::Integer(i)) => Some(*i as i64),
+                _ => None,
+            };
+            let mut first = Vec::new();
+            for item in rd.iter_shapes_and_records().take(k) {
+                let (s, rec) = item?;
+                first.push((capture(&s), idx_of(&rec)));
+            }
+            let mut second = Vec::new();
+            for item in rd.iter_shapes_and_records().take(n + 2) {
+                let (s, rec) = item?;
+                second.push((capture(&s), idx_of(&rec)));
+            }
+            Ok((first, second))
+        });
+        match r {
+            Err(p) => ctx.fail("C08", "panic", p.site(), format!("complete reader without index: {}", p.text())),
+            Ok(Err(e)) => ctx.fail("C08", "reader-pairs", "no-index-two-iterations", format!("history {}: the complete reader without index failed: {:?}", hist, classify(&e))),
+            Ok(Ok((first, second))) => {
+                let aligned = |from: usize, got: &[(Geom, Option<i64>)]| got.iter().enumerate().all(|(t, (g, idx))| from + t < n && diff_read(&geoms[expected[from + t]].normalised_for_read(), g, from + t, &never).is_none() && *idx == Some((from + t) as i64));
+                let ok = first.len() == k && aligned(0, &first) && ((second.len() == n - k && aligned(k, &second)) || (second.len() == n && aligned(0, &second)));
+                if !ok {
+                    ctx.fail("C08", "reader-pairs", "no-index-two-iterations", format!("history {}: without index, {} pairs then the rest: {:?} then {:?}", hist, k, first.iter().map(|(g, i)| format!("{}#{:?}", g.short(), i)).collect::<Vec<_>>(), second.iter().map(|(g, i)| format!("{}#{:?}", g.short(), i)).collect::<Vec<_>>()));
+                }
+            }
+        }
+        ctx.stats.absorb_world(&w4.borrow());
+    }
     if scn.path && bad == "no-failing-row" {
         path_route(ctx, scn, &shapes, &geoms, ty);
     }
@@ -432,6 +480,71 @@ fn path_route(ctx: &mut Ctx, scn: &PairScn, shapes: &[shapefile::Shape], geoms: 
     }
 }
 
+/// C10 through a complete writer built over a ShapeWriter that has already written a shape (the
+/// file's type is set before `Writer::new`): every rejected pair names the two types and touches
+/// nothing, every good pair is accepted, and the three files equal those of the same history
+/// without the rejected calls.
+fn execute_pre(scn: &PairScn, shapes: &[shapefile::Shape], other: &shapefile::Shape, ty: i32, ctx: &mut Ctx) {
+    if scn.calls.iter().any(|c| !matches!(c, PCall::Good(_) | PCall::WrongShape)) || !scn.ending_bulk.is_empty() {
+        ctx.fail("HARNESS", "invalid-scenario", "pair", "pre-used writer histories are made of good pairs and rejected shapes only".to_string());
+        return;
+    }
+    let hist = hist_name(&scn.calls);
+    let run = |with_rejected: bool, ctx: &mut Ctx| -> Option<(Vec<u8>, Vec<u8>, Vec<u8>)> {
+        let world = World::new(Plan::default());
+        {
+            let mut sw = ShapeWriter::with_shx(Stack::writer(&world, SHP, scn.stack), Stack::writer(&world, SHX, scn.stack));
+            if !matches!(guarded(|| on_shape!(&shapes[0], s => sw.write_shape(s), Ok(()))), Ok(Ok(()))) {
+                ctx.fail("HARNESS", "invalid-scenario", "pair", "the first shape cannot be written".to_string());
+                return None;
+            }
+            let tw = table().build_with_dest(Stack::writer(&world, DBF, scn.stack));
+            let mut writer = Writer::new(sw, tw);
+            let mut rows = 0usize;
+            for (ci, call) in scn.calls.iter().enumerate() {
+                let first_ev = world.borrow().log.len();
+                match call {
+                    PCall::WrongShape => {
+                        if !with_rejected {
+                            continue;
+                        }
+                        let r = guarded(|| on_shape!(other, s => writer.write_shape_and_record(s, &good_row(rows)), Ok(())));
+                        let want = RErr::Mismatch { requested: ty, actual: scn.other.ty };
+                        match r {
+                            Ok(Err(e)) if classify(&e) == want => {}
+                            Ok(x) => ctx.fail("C10", "rejected-error", type_name(ty), format!("complete writer over a used ShapeWriter, history {}: a {} offered to a {} file returned {:?}", hist, type_name(scn.other.ty), type_name(ty), x.map_err(|e| classify(&e)))),
+                            Err(p) => ctx.fail("C10", "panic", p.site(), p.text()),
+                        }
+                        if world.borrow().log.len() != first_ev {
+                            ctx.fail("C10", "rejected-no-io", "complete-writer", format!("complete writer over a used ShapeWriter, history {}: the rejected pair caused device operations", hist));
+                        }
+                    }
+                    PCall::Good(i) => {
+                        let r = guarded(|| on_shape!(&shapes[*i as usize % shapes.len()], s => writer.write_shape_and_record(s, &good_row(rows)), Ok(())));
+                        match r {
+                            Ok(Ok(())) => rows += 1,
+                            Ok(Err(e)) => ctx.fail("C10", "changes-nothing-else", "complete-writer", format!("complete writer over a used ShapeWriter, history {}: the good pair at call {} was refused with {:?}{}", hist, ci, classify(&e), if with_rejected { " (rejected calls precede it)" } else { "" })),
+                            Err(p) => ctx.fail("C10", "panic", p.site(), p.text()),
+                        }
+                    }
+                    _ => {}
+                }
+            }
+            let _ = guarded(move || drop(writer));
+        }
+        let wb = world.borrow();
+        Some((wb.data(SHP).to_vec(), wb.data(SHX).to_vec(), wb.data(DBF).to_vec()))
+    };
+    let (Some(a), Some(b)) = (run(true, ctx), run(false, ctx)) else { return };
+    // the .dbf header carries today's date in bytes 1..4
+    let strip = |d: &[u8]| -> Vec<u8> { d.iter().enumerate().filter(|(i, _)| !(1..4).contains(i)).map(|(_, b)| *b).collect() };
+    if a.0 != b.0 || a.1 != b.1 || strip(&a.2) != strip(&b.2) {
+        ctx.fail("C10", "same-as-without-rejected", "complete-writer", format!("complete writer over a used ShapeWriter, history {}: the files differ from those of the history without the rejected calls (.shp {} vs {}, .shx {} vs {}, .dbf {} vs {} bytes)", hist, a.0.len(), b.0.len(), a.1.len(), b.1.len(), a.2.len(), b.2.len()));
+    }
+    ctx.stats.reach("complete-writer-over-used-shape-writer");
+    ctx.stats.distinct.insert(crate::prng::fnv_str(&format!("pre|{}|{}|{:?}", ty, hist, scn.stack)));
+}
+
 /// Sweep unit: unit = type index; all histories up to `max_len` over the 5 call kinds
 /// (wrong-shape never first) x 2 endings x 2 stacks.
 pub fn sweep_unit(unit: u64, max_len: usize, ctx: &mut Ctx, ctl: &mut UnitCtl) {
@@ -445,7 +558,7 @@ pub fn sweep_unit(unit: u64, max_len: usize, ctx: &mut Ctx, ctl: &mut UnitCtl) {
         if h.first() != Some(&PCall::WrongShape) {
             for (ei, ending) in [vec![], vec![1u8, 0]].into_iter().enumerate() {
                 for st in [StackCfg::Direct, StackCfg::Buf(64)] {
-                    let scn = PairScn { shapes: shapes.clone(), other: other.clone(), calls: h.clone(), ending_bulk: ending.clone(), stack: st, path: ei == 0 && st == StackCfg::Direct && h.len() == 2 };
+                    let scn = PairScn { shapes: shapes.clone(), other: other.clone(), calls: h.clone(), ending_bulk: ending.clone(), stack: st, path: ei == 0 && st == StackCfg::Direct && h.len() == 2, pre: false };
                     if !ctl.before_case(|| Scenario::Pair(scn.clone())) {
                         continue;
                     }
@@ -460,6 +573,29 @@ pub fn sweep_unit(unit: u64, max_len: usize, ctx: &mut Ctx, ctl: &mut UnitCtl) {
         }
         if h.len() < max_len {
             for l in letters {
+                let mut g = h.clone();
+                g.push(l);
+                stack.push(g);
+            }
+        }
+    }
+    // the complete writer over a ShapeWriter that already holds a type: all histories up to
+    // length 3 over {good pair a, good pair b, rejected shape}, the rejected shape may come first
+    let mut stack: Vec<Vec<PCall>> = vec![vec![]];
+    while let Some(h) = stack.pop() {
+        if h.iter().any(|c| matches!(c, PCall::WrongShape)) {
+            for st in [StackCfg::Direct, StackCfg::Buf(64)] {
+                let scn = PairScn { shapes: shapes.clone(), other: other.clone(), calls: h.clone(), ending_bulk: vec![], stack: st, path: false, pre: true };
+                if !ctl.before_case(|| Scenario::Pair(scn.clone())) {
+                    continue;
+                }
+                ctx.stats.evaluations += 1;
+                execute(&scn, ctx);
+                ctl.after_case(ctx, || Scenario::Pair(scn.clone()));
+            }
+        }
+        if h.len() < 3 {
+            for l in [PCall::Good(0), PCall::Good(1), PCall::WrongShape] {
                 let mut g = h.clone();
                 g.push(l);
                 stack.push(g);
@@ -501,7 +637,7 @@ pub fn generate(r: &mut crate::prng::Rng) -> PairScn {
         calls[0] = PCall::Good(0);
     }
     let ending_bulk = if r.chance(1, 3) { (0..r.usize(1, 3)).map(|_| r.below(n as u64) as u8).collect() } else { vec![] };
-    PairScn { shapes, other, calls, ending_bulk, stack: gen_stack(r), path: r.chance(1, 10) }
+    PairScn { shapes, other, calls, ending_bulk, stack: gen_stack(r), path: r.chance(1, 10), pre: false }
 }
 
 /// Many pairs in one file (around and beyond internal limits of the readers).
@@ -514,6 +650,7 @@ pub fn large_unit(unit: u64, ctx: &mut Ctx, ctl: &mut UnitCtl) {
         ending_bulk: vec![],
         stack: StackCfg::Buf(8192),
         path: unit % 3 == 1,
+        pre: false,
     };
     if !ctl.before_case(|| Scenario::Pair(scn.clone())) {
         return;
